@@ -2,6 +2,7 @@ package vc
 
 import (
 	"fmt"
+	"hash/fnv"
 	"strings"
 )
 
@@ -329,6 +330,8 @@ type Slicer struct {
 	asDeps    [][]int        // per assumption: items it mentions directly
 	asDecl    []map[int]bool // per assumption: declared symbols in its transitive closure
 	declIndex map[int][]int  // declared item -> assumptions whose closure contains it
+	itemHash  []uint64
+	asHash    []uint64
 }
 
 func (g *Gen) deps(i int) []int {
@@ -410,8 +413,73 @@ func (g *Gen) NewSlicer() *Slicer {
 	return s
 }
 
+// Key returns a digest of the sliced query for cond (the same selection as Script, hashed
+// through per-item digests instead of the text itself).
+func (s *Slicer) Key(cond string) string {
+	g := s.g
+	if s.itemHash == nil {
+		s.itemHash = make([]uint64, len(g.items))
+		for i := range g.items {
+			s.itemHash[i] = fnv64(g.items[i].text)
+		}
+		s.asHash = make([]uint64, len(g.assumes))
+		for i, a := range g.assumes {
+			s.asHash[i] = fnv64(a)
+		}
+	}
+	in, asIn := s.sel(cond)
+	h := fnv.New128a()
+	var buf [8]byte
+	put := func(v uint64) {
+		for k := 0; k < 8; k++ {
+			buf[k] = byte(v >> (8 * k))
+		}
+		h.Write(buf[:])
+	}
+	for i := range g.items {
+		if in[i] || g.items[i].kind == "raw" {
+			put(s.itemHash[i])
+		}
+	}
+	put(0xFFFFFFFFFFFFFFFF)
+	for ai := range g.assumes {
+		if asIn[ai] {
+			put(s.asHash[ai])
+		}
+	}
+	h.Write([]byte(cond))
+	return fmt.Sprintf("%x", h.Sum(nil))
+}
+
+func fnv64(s string) uint64 {
+	h := fnv.New64a()
+	h.Write([]byte(s))
+	return h.Sum64()
+}
+
 // Script returns the sliced preamble for one obligation condition.
 func (s *Slicer) Script(cond string) string {
+	g := s.g
+	in, asIn := s.sel(cond)
+	var b strings.Builder
+	b.WriteString("(set-logic ALL)\n")
+	for i := range g.items {
+		if in[i] || g.items[i].kind == "raw" {
+			b.WriteString(g.items[i].text)
+		}
+	}
+	for ai, a := range g.assumes {
+		if asIn[ai] {
+			b.WriteString("(assert ")
+			b.WriteString(a)
+			b.WriteString(")\n")
+		}
+	}
+	return b.String()
+}
+
+// sel computes the items and assumptions of the slice for cond.
+func (s *Slicer) sel(cond string) (map[int]bool, []bool) {
 	g := s.g
 	in := map[int]bool{}
 	var start []int
@@ -453,21 +521,7 @@ func (s *Slicer) Script(cond string) string {
 			g.closure(s.asDeps[ai], in)
 		}
 	}
-	var b strings.Builder
-	b.WriteString("(set-logic ALL)\n")
-	for i := range g.items {
-		if in[i] || g.items[i].kind == "raw" {
-			b.WriteString(g.items[i].text)
-		}
-	}
-	for ai, a := range g.assumes {
-		if asIn[ai] {
-			b.WriteString("(assert ")
-			b.WriteString(a)
-			b.WriteString(")\n")
-		}
-	}
-	return b.String()
+	return in, asIn
 }
 
 func and(xs ...string) string {
